@@ -450,3 +450,63 @@ impl<T: Sc> DynModel<T> for ErrCounter<T> {
         Box::new(ErrCounter { inner: self.inner.clone(), errs: self.errs.clone() })
     }
 }
+
+/// A model written like the "caching" example of the rustdoc: `set_params` stores the parameters FIRST, may then
+/// fail (injected), and only afterwards precomputes the basis and derivative matrices that `eval` /
+/// `eval_partial_deriv` return.  After a failed `set_params` it reports the new parameters while its matrices still
+/// belong to the previous point - legal for a user model, and exactly the situation in which a caller must ask it again.
+pub struct Precomputing<T: Sc> {
+    pub inner: BM<T>,
+    pub plan: Arc<FaultPlan>,
+    pub params: OVector<T, Dyn>,
+    pub phi: Option<OMatrix<T, Dyn, Dyn>>,
+    pub dphi: Vec<Option<OMatrix<T, Dyn, Dyn>>>,
+}
+impl<T: Sc> Precomputing<T> {
+    pub fn wrap(inner: BM<T>, plan: Arc<FaultPlan>) -> BM<T> {
+        let params = inner.params();
+        let phi = inner.eval().ok();
+        let dphi = (0..inner.parameter_count()).map(|k| inner.eval_partial_deriv(k).ok()).collect();
+        BM(Box::new(Precomputing { inner, plan, params, phi, dphi }))
+    }
+}
+impl<T: Sc> SeparableNonlinearModel for Precomputing<T> {
+    type ScalarType = T;
+    type Error = MErr;
+    fn parameter_count(&self) -> usize {
+        self.inner.parameter_count()
+    }
+    fn base_function_count(&self) -> usize {
+        self.inner.base_function_count()
+    }
+    fn output_len(&self) -> usize {
+        self.inner.output_len()
+    }
+    fn set_params(&mut self, p: OVector<T, Dyn>) -> Result<(), MErr> {
+        if p.len() != self.inner.parameter_count() {
+            return Err(MErr::Model("wrong parameter count".into()));
+        }
+        self.params = p.clone();
+        self.plan.tick("set_params")?;
+        self.inner.set_params(p)?;
+        self.phi = self.inner.eval().ok();
+        self.dphi = (0..self.inner.parameter_count()).map(|k| self.inner.eval_partial_deriv(k).ok()).collect();
+        Ok(())
+    }
+    fn params(&self) -> OVector<T, Dyn> {
+        self.params.clone()
+    }
+    fn eval(&self) -> Result<OMatrix<T, Dyn, Dyn>, MErr> {
+        self.plan.tick("eval")?;
+        self.phi.clone().ok_or(MErr::Domain)
+    }
+    fn eval_partial_deriv(&self, k: usize) -> Result<OMatrix<T, Dyn, Dyn>, MErr> {
+        self.plan.tick("deriv")?;
+        self.dphi.get(k).cloned().flatten().ok_or(MErr::Domain)
+    }
+}
+impl<T: Sc> DynModel<T> for Precomputing<T> {
+    fn clone_box(&self) -> Box<dyn DynModel<T>> {
+        Box::new(Precomputing { inner: self.inner.clone(), plan: self.plan.clone(), params: self.params.clone(), phi: self.phi.clone(), dphi: self.dphi.clone() })
+    }
+}
